@@ -149,10 +149,28 @@ pub mod verif_glue
     #[kani::stub(crate::work::resolve_with_cache, crate::work::verif_glue::resolve_model)]
     #[kani::stub(crate::work::rebuild_node, crate::work::verif_glue::rebuild_model)]
     #[kani::stub(crate::blob::Blob::get_current_file_state_vec, crate::work::verif_glue::tail_model)]
-    fn glue_handle_rule_node()
+    fn glue_handle_rule_node_1t()
     {
-        let n : usize = kani::any();
-        kani::assume(n == 1 || n == 2);
+        glue(1);
+    }
+
+    #[kani::proof]
+    #[kani::unwind(4)]
+    #[kani::stub(<crate::ticket::Ticket as PartialEq>::eq, crate::ticket::verif_eq::ticket_eq_words)]
+    #[kani::stub(alloc::alloc::dealloc, crate::stubs::dealloc_noop)]
+    #[kani::stub(alloc::fmt::format, crate::stubs::format_empty_stub)]
+    #[kani::stub(<std::string::String as Clone>::clone, crate::stubs::string_clone_short)]
+    #[kani::stub(crate::work::resolve_with_cache, crate::work::verif_glue::resolve_model)]
+    #[kani::stub(crate::work::rebuild_node, crate::work::verif_glue::rebuild_model)]
+    #[kani::stub(crate::blob::Blob::get_current_file_state_vec, crate::work::verif_glue::tail_model)]
+    fn glue_handle_rule_node_2t()
+    {
+        glue(2);
+    }
+
+    /*  n is concrete in each harness: a blob of symbolic length costs CBMC far more than two harnesses */
+    fn glue(n : usize)
+    {
         let r0 : u8 = kani::any();
         let r1 : u8 = kani::any();
         kani::assume(r0 < 4 && r1 < 4);
